@@ -98,6 +98,7 @@ def _cmp_facts(e: ast.AST, truth: bool, syms) -> Tuple[Optional[bool], Optional[
 def resize(repo: Repo) -> List[Ob]:
     obs: List[Ob] = []
     P = ("C10",)
+    PC = ("C10", "C17", "C07")     # a cut through occupied levels is also an un-rejected invalid request and an invalid stored state
     n_commit = 0
     for q in RESIZERS:
         fi = repo.func(q)
@@ -167,11 +168,11 @@ def resize(repo: Repo) -> List[Ob]:
             key = f"dimension-commit#{k}@{lname}"
             unsafe = [st for st in sts if st[1] is not True and not st[0]]
             if unsafe:
-                obs.append(bad("RESIZE", fi, key, P, a,
+                obs.append(bad("RESIZE", fi, key, PC, a,
                                f"the dimension is set to `{nd}` on a path that may shrink the space without having established highest-occupied-level < {nd}: "
                                "occupied amplitudes are cut off and the call still reports success"))
             else:
-                obs.append(ok("RESIZE", fi, key, P, a, "shrinking is guarded by num_quanta < new_dimensions (or the path only grows)"))
+                obs.append(ok("RESIZE", fi, key, PC, a, "shrinking is guarded by num_quanta < new_dimensions (or the path only grows)"))
         # (c) a successful return after a dimension write has also re-written the stored array (except labels)
         j = 0
         for n in cfg.nodes:
